@@ -18,8 +18,8 @@ import (
 
 const ruleDup = "rapid: 2-4 goroutines released together through a spin barrier issue the SAME Broker call with the same arguments (RemovePipelineAndNodes, RemovePipeline, RemoveNode, RegisterPipeline, RegisterNode, Send, Reopen, threshold setters) or a drawn mix of them, 5-30 barrier steps per case, the pipeline being re-created single-threaded before every step, each step under the watchdog and a final writing probe call; oracle = every call returns within the bound, a miss is a violation only if the goroutine dump shows a library goroutine blocked on a lock; non-trivial = >=1 step of simultaneous identical removals or registrations; distinct = case descriptor"
 
-var dupOps = []string{"rpan", "rpan", "rmpipe", "rmnode", "regpipe", "regnode", "send", "reopen", "thr", "mixed", "mixed"}
-var mixOps = []string{"rpan", "rmpipe", "rmnode", "regpipe", "regnode", "send", "reopen", "thr", "isany"}
+var dupOps = []string{"rpan", "rpan", "rmpipe", "rmnode", "regpipe", "regpipe-deny", "regnode", "regnode-deny", "send", "reopen", "thr", "mixed", "mixed"}
+var mixOps = []string{"rpan", "rmpipe", "rmnode", "regpipe", "regpipe-deny", "regnode", "regnode-deny", "send", "reopen", "thr", "isany"}
 
 // TestC12ConcurrentDuplicates: simultaneous identical calls must not wedge the Broker.
 func TestC12ConcurrentDuplicates(t *testing.T) {
@@ -27,6 +27,8 @@ func TestC12ConcurrentDuplicates(t *testing.T) {
 	rapid.Check(t, func(t *rapid.T) {
 		g := rapid.IntRange(2, 4).Draw(t, "goroutines")
 		steps := rapid.SliceOfN(rapid.SampledFrom(dupOps), 5, 30).Draw(t, "steps")
+		fresh := rapid.SliceOfN(rapid.Bool(), len(steps), len(steps)).Draw(t, "freshPipeline")
+		stepNo := 0
 		mix := make([][]string, len(steps))
 		for i, s := range steps {
 			if s == "mixed" {
@@ -36,9 +38,14 @@ func TestC12ConcurrentDuplicates(t *testing.T) {
 		b, _ := eventlogger.NewBroker()
 		w := &nodes.World{}
 		ctx := context.Background()
-		mk := func(id string, nt eventlogger.NodeType) *nodes.N { return &nodes.N{W: w, Name: id, ID: id, T: nt} }
+		mk := func(id string, nt eventlogger.NodeType) *nodes.N {
+			return &nodes.N{W: w, Name: id, ID: id, T: nt, OnType: func(*nodes.N) { runtime.Gosched() }} // Type() is a scheduling point inside validation
+		}
 		pipe := eventlogger.Pipeline{PipelineID: "p", EventType: "T", NodeIDs: []eventlogger.NodeID{"f", "m", "s"}}
 		ensure := func() {
+			if fresh[stepNo] {
+				_ = b.RemovePipeline("T", "p") // the next burst meets a pipeline id whose policy is the default again
+			}
 			_ = b.RegisterNode("f", mk("f", eventlogger.NodeTypeFilter))
 			_ = b.RegisterNode("m", mk("m", eventlogger.NodeTypeFormatter))
 			_ = b.RegisterNode("s", mk("s", eventlogger.NodeTypeSink))
@@ -55,6 +62,10 @@ func TestC12ConcurrentDuplicates(t *testing.T) {
 				_ = b.RemoveNode(ctx, "s")
 			case "regpipe":
 				_ = b.RegisterPipeline(pipe)
+			case "regpipe-deny":
+				_ = b.RegisterPipeline(pipe, eventlogger.WithPipelineRegistrationPolicy(eventlogger.DenyOverwrite))
+			case "regnode-deny":
+				_ = b.RegisterNode("extra-deny", mk("extra-deny", eventlogger.NodeTypeFilter), eventlogger.WithNodeRegistrationPolicy(eventlogger.DenyOverwrite))
 			case "regnode":
 				_ = b.RegisterNode("f", mk("f", eventlogger.NodeTypeFilter), eventlogger.WithNodeRegistrationPolicy(eventlogger.AllowOverwrite))
 			case "send":
@@ -83,6 +94,7 @@ func TestC12ConcurrentDuplicates(t *testing.T) {
 		}
 		dupRemovals := 0
 		for i, s := range steps {
+			stepNo = i
 			if !exec(ensure) {
 				fail(fmt.Sprintf("re-creating the pipeline before step %d", i))
 			}
@@ -113,7 +125,7 @@ func TestC12ConcurrentDuplicates(t *testing.T) {
 			if !exec(wg.Wait) {
 				fail(fmt.Sprintf("step %d (%s x%d simultaneously)", i, s, g))
 			}
-			if s == "rpan" || s == "rmpipe" || s == "rmnode" || s == "regpipe" || s == "regnode" {
+			if s == "rpan" || s == "rmpipe" || s == "rmnode" || strings.HasPrefix(s, "regpipe") || strings.HasPrefix(s, "regnode") {
 				dupRemovals++
 			}
 		}
